@@ -40,13 +40,13 @@ fn main() {
         parts: vec![
             PropPart::new(
                 "interleave",
-                6_000,
-                260_000,
+                10_000,
+                500_000,
                 |tier: Tier| gen::case_strategy(tier.pick(40, 60)),
                 run::run_case,
             )
             .boxed(),
-            PropPart::new("expiry0", 4_000, 60_000, |_| gen::exp_strategy(), |c, ctx| expiry::exp_check(c, ctx, 0, 5, false)).boxed(),
+            PropPart::new("expiry0", 4_000, 100_000, |_| gen::exp_strategy(), |c, ctx| expiry::exp_check(c, ctx, 0, 5, false)).boxed(),
             PropPart::new("expiry1", 64, 640, |_| gen::exp_strategy(), |c, ctx| expiry::exp_check(c, ctx, 1, 1300, true))
                 .shrink_iters(8)
                 .boxed(),
